@@ -76,7 +76,7 @@ func floors(tier string) map[string]int64 {
 		"executed:transfer": 360, "executed:token": 120, "executed:create": 120, "executed:call": 200, "executed_failed": 180,
 		"executed:a2u": 140, "executed:u2u": 75, "executed:u2a": 34, "executed:mst": 28, "executed:cut": 25,
 		"executed_with_logs": 28, "blocks_with_2plus_logging_txs": 6, "contracts_destroyed": 1,
-		"warm_pool_admitted": 1200, "held_back": 130,
+		"warm_pool_admitted": 1200, "held_back": 55,
 	}
 	if tier == "thorough" {
 		for k, v := range m {
@@ -557,7 +557,10 @@ type chainOpts struct {
 func drawOpts(r *rng.R) chainOpts {
 	o := chainOpts{Blocks: r.Range(4, 10), Accounts: r.Range(5, 9)}
 	o.MaxTxs = []int{0, 0, 12, 25}[r.Intn(4)]
-	o.PoolSize = []int{3000, 3000, 10, 24}[r.Intn(4)]
+	// (A pool smaller than the workload would queue many accounts at once; the pool promotes them in Go map
+	// order, which would make the chain depend on more than the seed. C15 owns that ground.)
+	o.PoolSize = 3000
+	r.Intn(4)
 	o.UTXOSize = []int{1000, 1000, 2, 5}[r.Intn(4)]
 	o.Hostile = r.Chance(0.3)
 	return o
@@ -631,6 +634,7 @@ func (w *world) fill(height uint64, want int) {
 	var now []*genTx
 	for _, gt := range w.held[height] {
 		now = append(now, gt)
+		w.holding--
 	}
 	delete(w.held, height)
 	for tries := 0; len(now) < want && tries < want*3; tries++ {
